@@ -434,7 +434,7 @@ class _Builder:
         i = len(self.leaves)
         self.leaves.append({"shape": list(shape), "rg": bool(rg), "vals": _grid_vals(self.rng, numel(shape))})
         self.env.append({"ref": ["l", i], "shape": tuple(shape), "rg": bool(rg), "deps": frozenset([i]) if rg else frozenset(),
-                         "leaf": True})
+                         "leaf": True, "anc": frozenset()})
         return self.env[-1]
 
     def pick(self, pred=lambda e: True, prefer_recent=True):
@@ -453,12 +453,13 @@ class _Builder:
         detach = node["op"] == "detach"
         rg = (not detach) and any(a["rg"] for a in args)
         deps = frozenset() if detach else frozenset().union(*[a["deps"] for a in args])
+        anc = frozenset().union(*[a["anc"] for a in args]) | frozenset(tuple(a["ref"]) for a in args)
         new = []
         if node["op"] in MULTI:
             for k, s in enumerate(shp):
-                new.append({"ref": ["n", j, k], "shape": tuple(s), "rg": rg, "deps": deps, "leaf": False})
+                new.append({"ref": ["n", j, k], "shape": tuple(s), "rg": rg, "deps": deps, "leaf": False, "anc": anc})
         else:
-            new.append({"ref": ["n", j], "shape": tuple(shp[0]), "rg": rg, "deps": deps, "leaf": False})
+            new.append({"ref": ["n", j], "shape": tuple(shp[0]), "rg": rg, "deps": deps, "leaf": False, "anc": anc})
         self.env.extend(new)
         return new
 
@@ -596,6 +597,95 @@ def programs(draw, max_leaves=4, max_nodes=8, max_outputs=3, ops=DEFAULT_OPS, dt
     idx = draw(st.lists(st.integers(0, len(cands) - 1), min_size=k, max_size=k, unique=True))
     outputs = [cands[i]["ref"] for i in idx]
     return {"dtype": dtype, "leaves": b.leaves, "nodes": b.nodes, "outputs": outputs}
+
+
+HEAD_OPS = list(UNARY) + ["mul", "mul", "add", "sub", "sum", "mean", "sumall", "reshape", "select", "narrow", "unsqueeze"]
+
+
+@st.composite
+def mtl_programs(draw, max_shared=3, max_features=3, max_tasks=4, max_task_leaves=3, dtypes=("float64", "float32"),
+                 trunk_ops=DEFAULT_OPS, allow_around=True, max_trunk_nodes=5, max_head_nodes=3):
+    """Trunk/heads program. Returns the IR plus:
+      features: refs of 1..k mutually independent trunk nodes; losses: one scalar ref per task;
+      task_leaves: per task, the leaves it *lists* (may include leaves it does not use, leaves shared between tasks);
+      shared_leaves: the trunk leaves requiring grad; around: True when some head reaches the trunk around the features.
+    """
+    dtype = draw(st.sampled_from(list(dtypes)))
+    b = _Builder(draw, dtype, list(trunk_ops))
+    rng = b.rng
+    n_shared = int(rng.integers(1, max_shared + 1))
+    trunk = []
+    for i in range(n_shared):
+        shape = draw(shapes(max_rank=2, max_numel=6))
+        if i > 0 and rng.integers(0, 3) == 0:
+            shape = list(b.leaves[int(rng.integers(0, i))]["shape"])
+        trunk.append(b.add_leaf(shape, True))
+    if rng.integers(0, 4) == 0:
+        trunk.append(b.add_leaf(draw(shapes(max_rank=2, max_numel=6)), False))
+    n_leaf_trunk = len(b.leaves)
+    in_trunk = lambda e: any(e is t for t in trunk)  # noqa: E731
+    for _ in range(draw(st.sampled_from(list(range(1, max_trunk_nodes + 1))))):
+        trunk.extend(b.random_node(in_trunk))
+    cands = [e for e in trunk if not e["leaf"] and e["rg"]]
+    if not cands:
+        x = next(e for e in trunk if e["rg"])
+        trunk.extend(b.add_node({"op": "tanh"}, [x]))
+        cands = [trunk[-1]]
+    order = [cands[i] for i in rng.permutation(len(cands))]
+    feats = []
+    want = int(rng.integers(1, max_features + 1))
+    nid = lambda ref: (ref[0], ref[1])  # noqa: E731  autograd node of a tensor (all results of a multi-output op share it)
+    for e in order:
+        # independence at the level of autograd nodes: no feature's node is an ancestor of another feature (torch
+        # captures gradients per node, so a feature below a *sibling* of another feature is not independent of it)
+        if any(nid(e["ref"]) in {nid(a) for a in f["anc"]} or nid(f["ref"]) in {nid(a) for a in e["anc"]} for f in feats):
+            continue
+        feats.append(e)
+        if len(feats) == want:
+            break
+    n_tasks = min(max_tasks, [1, 2, 2, 3, 3, 4][int(rng.integers(0, 6))])
+    around = bool(allow_around and rng.integers(0, 5) == 0)
+    common_leaves = []
+    if n_tasks >= 2 and rng.integers(0, 4) == 0:
+        common_leaves.append(b.add_leaf(draw(shapes(max_rank=2, max_numel=6)), True))
+    task_leaves, losses = [], []
+    for t in range(n_tasks):
+        own = [b.add_leaf(draw(shapes(max_rank=2, max_numel=6)), True) for _ in range(int(rng.integers(0, max_task_leaves + 1)))]
+        listed = own + [c for c in common_leaves if rng.integers(0, 3) > 0]
+        allowed = list(feats) + listed
+        if around:
+            allowed += [e for e in trunk if e["rg"] and not any(e is f for f in feats)][:3]
+        ok = lambda e, allowed=allowed: any(e is a for a in allowed)  # noqa: E731
+        b.ops = list(HEAD_OPS)
+        head = []
+        f0 = feats[int(rng.integers(0, len(feats)))]
+        if listed and rng.integers(0, 4) > 0:
+            p0 = listed[int(rng.integers(0, len(listed)))]
+            mode = "same" if p0["shape"] == f0["shape"] else ("reshape" if numel(p0["shape"]) == numel(f0["shape"]) else "sumall")
+            head.extend(b.add_node({"op": ["mul", "add"][int(rng.integers(0, 2))], "coerce": mode}, [f0, p0]))
+        else:
+            head.extend(b.add_node({"op": "sin"}, [f0]))
+        allowed += head
+        for _ in range(int(rng.integers(0, max_head_nodes + 1))):
+            new = b.random_node(ok)
+            head.extend(new)
+            allowed.extend(new)
+        last = [e for e in head if e["rg"]][-1]
+        if last["shape"] != ():
+            last = b.add_node({"op": "sumall"}, [last])[0]
+        losses.append(last["ref"])
+        task_leaves.append([e["ref"][1] for e in listed])
+    return {
+        "dtype": dtype,
+        "leaves": b.leaves,
+        "nodes": b.nodes,
+        "outputs": losses,
+        "features": [f["ref"] for f in feats],
+        "losses": losses,
+        "task_leaves": task_leaves,
+        "shared_leaves": [i for i in range(n_leaf_trunk) if b.leaves[i]["rg"]],
+        "around": around,
+    }
 
 
 # ------------------------------------------------------------------------------------------------
